@@ -7,6 +7,7 @@
 -/
 import FileD.Prelude.Tok
 import FileD.Model.Core
+import FileD.Model.StreamProc
 import FileD.Spec.C01
 namespace FileD.DrvC01
 open FileD FileD.Core Tok
@@ -92,6 +93,81 @@ def replay (hasDQ : Bool) (ops : List (String × Op)) : Option (Nat × String) :
       | some s' => go s' (i + 1) rest
   go (init hasDQ) 0 ops
 
+/-! M2: per-stream projection of the trace, replayed through StreamProc.step? -/
+
+/-- stream index of a `src.sK` token -/
+def streamTok (s : String) : Option Nat :=
+  match s.splitOn "." with
+  | [src, st] => do
+    let a ← nat? src
+    let k ← (st.drop 1).toNat?
+    pure (a * 1000 + k)
+  | _ => none
+
+def stOfOff (infos : List EvInfo) (off : Nat) : Option Nat := (infos.find? (·.off == off)).map (·.st)
+
+/-- (stream, op) pairs of the stream/processor layer; time-out gets are logged as `gtm:S` -/
+def toStreamOps (infos : List EvInfo) : List String → Option (List (String × Nat × StreamProc.Op))
+  | [] => some []
+  | t :: ts =>
+    match t.splitOn ":" with
+    | ["put", o, q] => do
+      let st ← stOfOff infos (← nat? o); let r ← toStreamOps infos ts
+      pure ((t, st, .put (← nat? q)) :: r)
+    | ["get", o, q] => do
+      let st ← stOfOff infos (← nat? o); let r ← toStreamOps infos ts
+      pure ((t, st, .get (← nat? q)) :: r)
+    | ["gtm", sk] => do let st ← streamTok sk; let r ← toStreamOps infos ts; pure ((t, st, .getTimeout) :: r)
+    | ["scm", o, q] => do
+      let off ← nat? o
+      let st ← stOfOff infos off; let r ← toStreamOps infos ts
+      pure ((t, st, .commit (← nat? q)) :: r)
+    | ["chg", sk] => do let st ← streamTok sk; let r ← toStreamOps infos ts; pure ((t, st, .charge) :: r)
+    | ["pop", sk] => do let st ← streamTok sk; let r ← toStreamOps infos ts; pure ((t, st, .pop) :: r)
+    | ["att", sk] => do let st ← streamTok sk; let r ← toStreamOps infos ts; pure ((t, st, .attach) :: r)
+    | ["lv", sk] => do let st ← streamTok sk; let r ← toStreamOps infos ts; pure ((t, st, .leave) :: r)
+    | ["det", sk] => do let st ← streamTok sk; let r ← toStreamOps infos ts; pure ((t, st, .detach) :: r)
+    | ["tmo", sk] => do let st ← streamTok sk; let r ← toStreamOps infos ts; pure ((t, st, .timeout) :: r)
+    | ["out", o, _p] => do
+      let off ← nat? o
+      let r ← toStreamOps infos ts
+      match stOfOff infos off with
+      | some st => pure ((t, st, .out off) :: r)      -- seq filled in by `resolve`
+      | none => pure r                                  -- child events (offset 0) are not stream events
+    | ["prop", o, _p] => do
+      let off ← nat? o; let st ← stOfOff infos off; let r ← toStreamOps infos ts
+      pure ((t, st, .propagate off) :: r)
+    | ["fin", o, f] => do
+      let off ← nat? o; let r ← toStreamOps infos ts
+      match stOfOff infos off, f with
+      | some st, "0" => pure ((t, st, .hold off) :: r)
+      | some st, "1" => pure ((t, st, .drop off) :: r)
+      | _, _ => pure r
+    | _ => toStreamOps infos ts
+
+/-- ops logged with an offset are rewritten to the event's sequence number -/
+def resolve (seqs : List (Nat × Nat)) : StreamProc.Op → Option StreamProc.Op
+  | .out off => (seqs.find? (·.1 == off)).map (fun p => .out p.2)
+  | .propagate off => (seqs.find? (·.1 == off)).map (fun p => .propagate p.2)
+  | .hold off => (seqs.find? (·.1 == off)).map (fun p => .hold p.2)
+  | .drop off => (seqs.find? (·.1 == off)).map (fun p => .drop p.2)
+  | op => some op
+
+/-- replay every stream's projection; first rejected token, if any -/
+def replayStreams (seqs : List (Nat × Nat)) (ops : List (String × Nat × StreamProc.Op)) : Option String :=
+  let rec go (states : List (Nat × StreamProc.SS)) : List (String × Nat × StreamProc.Op) → Option String
+    | [] => none
+    | (t, st, op) :: rest =>
+      let s := (states.find? (·.1 == st)).map (·.2) |>.getD {}
+      match resolve seqs op with
+      | none => some t
+      | some op' =>
+        match StreamProc.step? s op' with
+        | none => some t
+        | some s' =>
+          if s'.panicked then some t else go ((st, s') :: states.filter (·.1 != st)) rest
+  go [] ops
+
 def handle (cmd : String) (args impl : List String) : Option (String × String) :=
   match args with
   | _procs :: _cap :: _lowmem :: _bcount :: _workers :: _retry :: dq :: _fp :: _dfp :: _chain :: _jit :: _nsrc :: nev :: rest => do
@@ -110,8 +186,14 @@ def handle (cmd : String) (args impl : List String) : Option (String × String) 
       | none => some ("bad-trace", "fail:bad-trace:0:0")
       | some ops =>
         let m := match replay hasDQ ops with
-          | none => unwords impl
           | some (i, t) => s!"reject@{i} {t}"
+          | none =>
+            match toStreamOps infos trace with
+            | none => "bad-stream-trace"
+            | some sops =>
+              match replayStreams (seqsOf trace) sops with
+              | some t => s!"reject-stream {t}"
+              | none => unwords impl
         let opl := ops.map (·.2)
         let p :=
           if cmd = "c01.run" then SpecC01.verdict (SpecC01.frontier hasDQ opl)
